@@ -13,7 +13,9 @@ class Engine:
                  "the immediate / displacement of every mnemonic; every riscv / rvc instruction class x every such "
                  "value (two register defaults) + register sweeps of every slot, driven through encode() (+ the "
                  "instruction's relocation applied) and through the assembler + real linker (symbol placed by a "
-                 "layout); E: TLC decides accepted <=> Encodable and Decode(bytes) = value; "
+                 "layout); E: TLC decides accepted <=> Encodable and Decode(bytes) = value; thorough: also x86_64 / arm / thumb "
+                 "relocation sites at distances around +-2^(w-1), +-2^w through the linker and Relocation.apply, judged "
+                 "with Reloc.tla (Representable, FieldOK, Preserved); "
                  "distinct = distinct (class, path, printed text, symbol address)")
         ctx.assume("lexical tokenisation of the printed text; the layout places the two sections where requested "
                    "(checked on the linked object)")
@@ -46,3 +48,39 @@ class Engine:
             return "'%s' was encoded as %s, which decodes to a different value" % (rec["text"], bytes(o["bytes"]).hex())
 
         report(ctx, "C10", verdicts, what)
+        if thorough and ctx.only is None:
+            self.other_targets(ctx)
+
+    def other_targets(self, ctx):
+        """Relocations of x86_64 / arm / thumb, judged with the field layouts of tla/Reloc.tla (module of C11)."""
+        from harness import tlc as tlcmod
+        recs, skipped = asmgen.reloc_records("C10", ctx.rng, True)
+        for s in skipped:
+            ctx.note("relocation site %s not assembled" % s)
+        for r in recs:
+            ctx.count(r["key"])
+        try:
+            verdicts = asmgen.judge(ctx, recs, ["RelocAcceptsRepresentable", "RelocRejectsUnrepresentable", "RelocFieldExact",
+                                                "TypeModelled"], "E: C10 relocations of x86_64 / arm / thumb (Reloc.tla)",
+                                    module="C10Reloc_Eval")
+        except tlcmod.MachineryError as e:
+            # Reloc.tla belongs to another engine (C11); if it cannot be evaluated the riscv part above still stands
+            ctx.note("relocation ranges of x86_64 / arm / thumb NOT judged: C10Reloc_Eval / Reloc.tla could not be evaluated (%s)"
+                     % str(e)[:200])
+            return
+        unmodelled = 0
+        for rec, clause, _ in verdicts:
+            if clause == "TypeModelled":
+                unmodelled += 1
+                continue
+            if clause == "RelocRejectsUnrepresentable":
+                w = "%s relocation %s at distance %d does not fit but was patched to %s" % (
+                    rec["arch"], rec["rt"], rec["d"], bytes(rec["after"]).hex())
+            elif clause == "RelocAcceptsRepresentable":
+                w = "%s relocation %s at distance %d is representable but was refused (%s)" % (rec["arch"], rec["rt"], rec["d"], rec["exc"])
+            else:
+                w = "%s relocation %s at distance %d patched to %s, which designates another address" % (
+                    rec["arch"], rec["rt"], rec["d"], bytes(rec["after"]).hex())
+            ctx.violation(rec["key"], w + " [clause %s]" % clause, {"record": rec, "clause": clause})
+        if unmodelled:
+            ctx.note("%d relocation(s) of a type without a field model in Reloc.tla: no verdict" % unmodelled)
